@@ -79,9 +79,12 @@ func (s *CollapsingLowestDenseStore) extendRange(newMinIndex, newMaxIndex int) {
 	if s.IsEmpty() {
 		initialLength := s.getNewLength(newMinIndex, newMaxIndex)
 		s.bins = append(s.bins, make([]float64, initialLength)...)
+		// The store is empty: start from a single-bin window, which always fits in the allocated
+		// bins, and let adjust collapse or center it on the requested range. The requested range
+		// itself may be wider than the bins (e.g. when merging a wider store into an empty one).
 		s.offset = newMinIndex
 		s.minIndex = newMinIndex
-		s.maxIndex = newMaxIndex
+		s.maxIndex = newMinIndex
 		s.adjust(newMinIndex, newMaxIndex)
 	} else if newMinIndex >= s.offset && newMaxIndex < s.offset+len(s.bins) {
 		s.minIndex = newMinIndex
